@@ -1,4 +1,8 @@
 import WebrtcVerif.Base.Wire
+import WebrtcVerif.Drv.C20
+import WebrtcVerif.Drv.C27
+import WebrtcVerif.Drv.C25
+import WebrtcVerif.Drv.C18
 import WebrtcVerif.Drv.C24
 import WebrtcVerif.Drv.C26
 import WebrtcVerif.Drv.C15
@@ -46,6 +50,10 @@ def runLine (toks : List String) : String :=
   | "C15" :: rest => Drv.C15.run rest
   | "C26" :: rest => Drv.C26.run rest
   | "C24" :: rest => Drv.C24.run rest
+  | "C18" :: rest => Drv.C18.run rest
+  | "C25" :: rest => Drv.C25.run rest
+  | "C27" :: rest => Drv.C27.run rest
+  | "C20" :: rest => Drv.C20.run rest
   | _ => "bad-op"
 
 def judgeLine (toks : List String) : String :=
@@ -71,6 +79,10 @@ def judgeLine (toks : List String) : String :=
   | "C15" :: rest => Drv.C15.judge rest out
   | "C26" :: rest => Drv.C26.judge rest out
   | "C24" :: rest => Drv.C24.judge rest out
+  | "C18" :: rest => Drv.C18.judge rest out
+  | "C25" :: rest => Drv.C25.judge rest out
+  | "C27" :: rest => Drv.C27.judge rest out
+  | "C20" :: rest => Drv.C20.judge rest out
   | _ => "bad-judge"
 
 partial def loop (h : IO.FS.Stream) (out : IO.FS.Stream) (f : List String → String) : IO Unit := do
